@@ -21,6 +21,16 @@ pub enum Kind {
     Multi,
     /// op::SendZc on a TCP connection whose peer window is closed — io_uring only
     Zc,
+    /// op::SendZc on a TCP connection whose write side the harness shut down before the submit:
+    /// the send fails (EPIPE) at send time, the kernel still posts the error completion flagged
+    /// "more" and then the release notification — io_uring only
+    ZcErr,
+    /// op::SendZc on a TCP connection whose peer closed with a reset before the submit
+    /// (ECONNRESET, then EPIPE) — io_uring only
+    ZcRst,
+    /// op::SendZc on a unix stream socket whose write side was shut down (unix sockets do not
+    /// take zero-copy sends: EOPNOTSUPP, or EPIPE should they ever do) — io_uring only
+    ZcUx,
 }
 
 #[derive(Clone, Copy, PartialEq, Eq, Debug, Hash, PartialOrd, Ord)]
@@ -44,7 +54,7 @@ impl Kind {
             Kind::SendW | Kind::Zc => Class::Out,
             Kind::Accept => Class::Conn,
             Kind::Job => Class::Gate,
-            Kind::File => Class::Own,
+            Kind::File | Kind::ZcErr | Kind::ZcRst | Kind::ZcUx => Class::Own,
         }
     }
 
@@ -58,6 +68,9 @@ impl Kind {
             Kind::SendW => "send",
             Kind::Multi => "multi",
             Kind::Zc => "zc",
+            Kind::ZcErr => "zcerr",
+            Kind::ZcRst => "zcrst",
+            Kind::ZcUx => "zcux",
         }
     }
 
@@ -71,14 +84,21 @@ impl Kind {
             "send" => Kind::SendW,
             "multi" => Kind::Multi,
             "zc" => Kind::Zc,
+            "zcerr" => Kind::ZcErr,
+            "zcrst" => Kind::ZcRst,
+            "zcux" => Kind::ZcUx,
             _ => return None,
         })
     }
 
     pub fn uring_only(self) -> bool {
-        matches!(self, Kind::Multi | Kind::Zc)
+        matches!(self, Kind::Multi | Kind::Zc) || self.zc_fail()
     }
 
+    /// a zero-copy send that fails at send time (the socket was broken before the submit)
+    pub fn zc_fail(self) -> bool {
+        matches!(self, Kind::ZcErr | Kind::ZcRst | Kind::ZcUx)
+    }
 }
 
 #[derive(Clone, Copy, PartialEq, Eq, Debug, Hash, PartialOrd, Ord)]
